@@ -9,6 +9,7 @@ only changes made to that text are the declared rewrites, each counted and liste
 Directive summary (lines starting with //@):
   //@include FILE                     splice another spec fragment (relative to contracts/verus)
   //@float_axioms                     splice the f64 totality axiom group
+  //@verus_arg ARG                    extra command-line argument for verus on this unit (listed in evidence)
   //@extract FILE :: SEG [:: SEG]     copy an item from /repo (SEG = 'impl T' | 'fn f' | 'struct S' ...)
       //@ret NAME                     R10: name the return value  `-> T` => `-> (NAME: T)`
       //@spec                         following lines go between signature and body
@@ -48,6 +49,7 @@ SUBST_KINDS = {
     'R7': 'iterator-style loop header => index loop over the same sequence',
     'R11': 'std method call => same call through a wrapper fn whose spec is an assume_specification-style contract',
     'R12': 'pattern destructuring in closure/let position => field access',
+    'R15': 'Deref of a deref_buffer! newtype made explicit: x[i] => x.buffer[i], x.len() => x.buffer.len(), and float compound assignment on it expanded (X op= E => X = X op E)',
     'R14': 'explicit type ascription on a let (the type rustc infers; needed because spliced spec text mentions the variable before inference completes)',
     'R13': 'contract splice on a nested fn or closure header (adds specification text and a name for the return value; executable text unchanged)',
 }
@@ -176,6 +178,7 @@ class Extractor:
         self.items = []          # other extracted items
         self.fn_entry_lines = {}  # fn qualified name -> generated line index of body start (for vacuity twin)
         self.assumption_scan = []
+        self.verus_args = []
 
     def count(self, kind, n=1):
         self.rewrites[kind] = self.rewrites.get(kind, 0) + n
@@ -217,6 +220,9 @@ class Extractor:
                     raise SpecError('%s:%d: //@extract without //@end' % (f, no))
                 self.do_extract(s[len('//@extract '):], block, (f, no))
                 i = j + 1
+            elif s.startswith('//@verus_arg '):
+                self.verus_args.append(s[len('//@verus_arg '):].strip())
+                i += 1
             elif s.startswith('//@'):
                 raise SpecError('%s:%d: unknown top-level directive %s' % (f, no, s))
             else:
@@ -229,7 +235,7 @@ class Extractor:
 
     # ------------------------------------------------------------------
     def do_extract(self, header, block, where):
-        parts = [p.strip() for p in header.split('::')]
+        parts = [p.strip() for p in header.split(' :: ')]
         relfile, path = parts[0], parts[1:]
         srcfile = os.path.join(self.repo, relfile)
         try:
@@ -280,6 +286,9 @@ class Extractor:
         # contract); visibility of types and fields is kept
         for m in find_code(item, mask, r'\bpub\s*(\((?:crate|super|self|in [^)]*)\))?\s+(?=(?:const\s+)?(?:unsafe\s+)?fn\b)'):
             edits.append(Edit(m.start(), m.end(), '', 'R1'))
+        # restricted visibilities on types / fields make no sense in a single-file unit: pub(super) => pub
+        for m in find_code(item, mask, r'\bpub\s*\((?:crate|super|self|in [^)]*)\)(?=\s+(?!(?:const\s+)?(?:unsafe\s+)?fn\b))'):
+            edits.append(Edit(m.start(), m.end(), 'pub', 'R1'))
 
         body_open = body_close = None
         if is_fn:
@@ -616,7 +625,10 @@ def scan_assumptions(lines):
         code = t.split('//')[0]
         m = pat.search(code)
         if m:
-            found.append({'line': i, 'kind': m.group(1).strip(' ('), 'text': t.strip()[:160]})
+            text = t.strip()
+            if text.startswith('#[') and i < len(lines):
+                text += ' ' + lines[i][0].strip()     # the item the attribute is attached to
+            found.append({'line': i, 'kind': m.group(1).strip(' ('), 'text': text[:200]})
     return found
 
 
@@ -640,6 +652,7 @@ def generate(repo, unit_path, out_path, twin_path=None):
         'rewrites': ex.rewrites,
         'substs': ex.substs,
         'holes': ex.holes,
+        'verus_args': ex.verus_args,
         'linemap': [list(o) if o else None for _, o in lines],
         'assumption_scan': scan_assumptions(lines),
     }
